@@ -54,6 +54,7 @@ def check_module(tkey, devs):
                        {"error": repr(e)}, case)], C.h8(b1)
     if type(l1) is not type(mod):
         vs.append(C.viol("type-identity", {"type": tkey}, {"loaded": type(l1).__name__}, case))
+    vs += C.api_paths_agree(rv.Synth(mod), b1, {"type": tkey, "ctx": "synth"}, case, files=(len(devs) == 0))
     d = S.diff(s_syn, S.module(l1, in_project=False))
     if d:
         vs.append(C.viol("synth-roundtrip", {"type": tkey, "path": C.first_diff_key(d)},
@@ -72,6 +73,7 @@ def check_module(tkey, devs):
     p.attach_module(mod)
     s_prj = C.norm_module_for_compare(S.module(mod, in_project=True))
     b2 = C.save(p)
+    vs += C.api_paths_agree(p, b2, {"type": tkey, "ctx": "project"}, case, files=(len(devs) == 0))
     try:
         p2 = C.load_bytes(b2)
         l2 = p2.modules[1]
